@@ -163,16 +163,20 @@ def is_match(c, dn, tod, t):
 # ------------------------------------------------------------------------------------------------
 P_TIMES = [["hms", 0, 0, 0], ["hms", 6, 30, 0], ["hms", 6, 29, 59], ["hms", 6, 30, 1], ["hms", 23, 59, 59],
            ["hms", 6, 30, 15], ["hms", 6, 0, 0], ["hms", 24, 0, 0]]
+# full points that are not on a whole second (binary fractions: exact), in every time form
+P_FRAC = [["hmsf", 6, 29, 59, 0.5], ["hmsf", 0, 0, 0, 0.5], ["hmsf", 6, 30, 0, 0.25], ["hmsf", 23, 59, 59, 0.5],
+          ["hmf", 6, 29, 0.5], ["hf", 5, 0.75], ["hf", 6, 0.5]]
 
 
 def p_pool(kind, which, tier):
     c = M.cal(kind)
     if which == "small":
-        years, times, reps, offs = [2001], P_TIMES, ["cal"], [[0, 0], [5, 45]]
+        years, times, reps, offs = [2001], P_TIMES + P_FRAC, ["cal"], [[0, 0], [5, 45]]
         days = lambda y: (1, 59, c.year_len(y))  # noqa: E731
     else:
         years = [2001, 2004] if (tier != "quick" or kind == "greg") else [2001]
         times = P_TIMES[:2] + P_TIMES[4:5] + P_TIMES[7:] if tier == "quick" else P_TIMES[:3] + P_TIMES[4:5] + P_TIMES[7:]
+        times = times + P_FRAC[:1] + P_FRAC[4:6]
         reps, offs = pools.REPS, [[-12, 0]]
         days = lambda y: pools.days_small(c, y)  # noqa: E731
     out = []
@@ -240,14 +244,17 @@ def check_case(ctx, kind, c, t, pdesc, hang, tobj=None):
         return
     p = impl.build_point(pdesc)
     dn, tod, off = impl.model_point(pdesc, kind)
-    tod = int(tod)
+    tod = int(tod) if tod.denominator == 1 else tod
     inst_p = dn * 86400 + tod - off * 60
     zoff = off if t.get("tz") is None else t["tz"][0] * 60 + t["tz"][1]
     local = inst_p + zoff * 60
     ldn, ltod = divmod(local, 86400)
     want = next_match(c, ldn, ltod, t)
-    hkey = (tm.get("h") == 24, tuple(sorted(dy.items())) if want is None else None)
+    frac_p = not isinstance(tod, int)
+    hkey = (tm.get("h") == 24, tuple(sorted(dy.items())) if want is None else None, frac_p and bool(tm))
     sig["no_match_exists"] = want is None
+    if frac_p:
+        sig["p_on_whole_second"] = False
     if hang.skip(hkey):
         ctx.count("nonterminating_class_cases_not_expanded")
         ctx.cap("hang_expansion", "at most %d non-terminating executions are run to the horizon per class and unit; "
